@@ -516,6 +516,7 @@ def history_case(draw):
         st.tuples(st.just("d"), st.integers(0, 1), st.integers(0, 50)),
         st.tuples(st.just("c"), st.integers(0, 1), st.just(0)),
         st.tuples(st.just("r"), st.just(0), st.integers(0, 50)),
+        st.tuples(st.just("r"), st.just(0), st.integers(0, 50)),
         st.tuples(st.just("x"), st.just(0), st.integers(0, 50)),   # decode() on a snapshot
         st.tuples(st.just("b"), st.integers(0, 1), st.sampled_from([-1, 0, 1, 5])),  # bad site id
     )
@@ -935,15 +936,15 @@ SUBCHECKS = [
              classify=classify,
              floors={"stacked_mut_path": 0.15, "mut_above_isolated_sample": 0.03, "site_in_gap": 0.02,
                      "missing_data": 0.1, "gt4_alleles": 0.02, "empty_allele": 0.03, "multichar_allele": 0.05,
-                     "non_sample_requested": 0.1, "user_alleles": 0.2, "window_proper_subset": 0.05,
+                     "non_sample_requested": 0.07, "user_alleles": 0.2, "window_proper_subset": 0.05,
                      "silent_mut": 0.1, "back_mut": 0.03, "recurrent_state": 0.1, "multi_mut_one_node": 0.1,
                      "mut_above_root": 0.1, "mapping_lacks_state": 0.03, "copy_false": 0.15,
                      "internal_sample": 0.1}),
     SubCheck("C03.decode_history", run_history, strategy=history_case, quick=4000, thorough=120000,
              rule=">=2 successful decode() calls and (" + NT_RULE + ", or a backward jump in the decode order)",
              classify=classify,
-             floors={"backward_jump": 0.3, "repeat_decode": 0.15, "snapshots": 0.3, "snapshot_reread": 0.2,
-                     "two_live": 0.2, "multi_tree": 0.3, "missing_data": 0.1, "non_sample_requested": 0.1}),
+             floors={"backward_jump": 0.25, "repeat_decode": 0.15, "snapshots": 0.2, "snapshot_reread": 0.1,
+                     "two_live": 0.2, "multi_tree": 0.25, "missing_data": 0.1, "non_sample_requested": 0.07}),
     SubCheck("C03.haplotypes_alignments", run_hap, strategy=hap_case, quick=3000, thorough=90000,
              rule="haplotypes() returned strings over >=1 site and >=1 node for a tree sequence in the classes "
              "above, or alignments() returned strings over >=1 site",
